@@ -1008,6 +1008,36 @@ def r13_4(ctx: Ctx) -> None:
                    "port_protocol_mapping[(port, protocol)] is overwritten unconditionally, and uninstall pops the key by the "
                    f"package's name, although these classes share an endpoint: {'; '.join(f'{k[0]}/{k[1]}: {v}' for k, v in sorted(shared.items()))}"
                    " - after installing and uninstalling one of them the other is RUNNING with its port closed and no dispatch entry")
+    # uninstall side: only the entry that belongs to the package being uninstalled may be removed from the dispatch table
+    un = ix.method("SoftwareManager.uninstall")
+    gu = CFG(un.node)
+    ld_u = LocalDefs(un.node)
+    removals = []
+    for n in gu.nodes:
+        for c in node_calls(n):
+            if isinstance(c.func, ast.Attribute) and c.func.attr in ("pop", "__delitem__") and "port_protocol_mapping" in unparse(c.func.value):
+                removals.append(n)
+        if n.kind == "stmt" and isinstance(n.ast, ast.Delete) and any("port_protocol_mapping" in unparse(t) for t in n.ast.targets):
+            removals.append(n)
+
+    def owned(e: Edge) -> bool:
+        if not (e.label and e.label[0] == "cond" and e.label[2] is True):
+            return False
+        ex = ld_u.expand(e.label[1])
+        if isinstance(ex, ast.Compare) and len(ex.ops) == 1 and isinstance(ex.ops[0], (ast.Eq, ast.Is)):
+            sides = [unparse(ex.left), unparse(ex.comparators[0])]
+            return any(t in ("software_name", "software.name", "software") for t in sides) and any(
+                t not in ("software_name", "software.name", "software") for t in sides)
+        return False
+
+    if removals:
+        p_u = gu.path_avoiding(removals, owned)
+        ctx.record("R13.4", ctx.key(un, "uninstall removes only the dispatch entry owned by the uninstalled package"), un.loc(removals[0].ast),
+                   p_u is None,
+                   "the (port, protocol) entry is removed only past a test that it belongs to the package being uninstalled" if p_u is None else
+                   "uninstall drops the (port, protocol) entry whoever owns it: a co-installed package that shares the endpoint "
+                   f"({'; '.join(f'{k[0]}/{k[1]}: {v}' for k, v in sorted(shared.items()))[:160]}) stays RUNNING without dispatch entry or open port",
+                   path_text(p_u))
     # registries of the SoftwareManager that are consulted but never populated
     sm = ix.cls("SoftwareManager")
     init = ix.method("SoftwareManager.__init__")
